@@ -19,7 +19,10 @@ INTS = ["0", "1", "7", "42", "100", "1000000"]
 DECS = ["2.5", "0.25", "10.125", "3.0"]
 DQ = ['"x"', '"[a]"', '"a b"', '"^r.*"', '"%.2f"', '"it\'s"', '"(p)"', '""']
 SQ = ["'x'", "'[a]'", "'y z'", "'A'", "'a)b'"]
-BQ = ["`2020-01-01`", "`[d]`", "`2004-01-01T00:00:00`"]
+BQ = ["`2020-01-01`", "`[d]`", "`2004-01-01T00:00:00`", "`a(`", "`x)`", "`(p)`", "`it's`"]
+# unbalanced parentheses / quote characters inside strings: the string builders scan for parentheses
+DQ_EXTRA = ['"a("', '")"', '"`"']
+SQ_EXTRA = ["'('", "'x)'"]
 
 AVOID = {"percent": True}
 EXCLUDED = {}
@@ -44,9 +47,9 @@ def gen_atom(ch, allow_func=True):
     if k < 6:
         return ["atom", ch.choice(DECS)]
     if k < 7:
-        return ["atom", ch.choice(DQ)]
+        return ["atom", ch.choice(DQ + DQ_EXTRA)]
     if k < 8:
-        return ["atom", ch.choice(SQ)]
+        return ["atom", ch.choice(SQ + SQ_EXTRA)]
     if k < 9 or not allow_func:
         return ["atom", ch.choice(BQ)]
     n = ch.int(1, 3)
